@@ -747,6 +747,11 @@ struct Node {
     pool: ProofPool,
     model: Model,
     now: u64,
+    /// the implementation's verification window has already been reported as different from
+    /// the model's (a C22 violation): from here on the window's (start, count) is not compared
+    /// again, the model keeps its own fixed-window bookkeeping, and only results, verification
+    /// calls and pool contents are compared. Never set on a tree without violations.
+    wdiv: bool,
 }
 
 enum Got {
@@ -766,6 +771,11 @@ struct StepOut {
     expected: Obs,
     got_text: String,
     exp_text: String,
+    /// the only mismatch is the verification window's (start, count): the search goes on below
+    /// this step (window no longer compared, see Node::wdiv) so that the consequences of a
+    /// drifting window - pushes admitted or refused against the fixed-window budget rule - are
+    /// attributed as well. Never set on a tree without violations.
+    resynced: bool,
 }
 
 fn new_node(ctx: &Ctx, lim: (usize, usize, usize)) -> Node {
@@ -778,7 +788,7 @@ fn new_node(ctx: &Ctx, lim: (usize, usize, usize)) -> Node {
     };
     let pool = ProofPool::new(ctx.verifier.clone(), NUM_LEAVES, BATCH, limits)
         .unwrap_or_else(|e| machinery_error(&format!("ProofPool::new failed for {lim:?}: {e}")));
-    Node { pool, model: Model::new(), now: 0 }
+    Node { pool, model: Model::new(), now: 0, wdiv: false }
 }
 
 /// The real public-batch preflight on a snapshot. The preflight is a pure function of the
@@ -884,14 +894,14 @@ fn step(ctx: &Ctx, lim: (usize, usize, usize), node: &mut Node, opi: usize) -> S
     let got = match got {
         Err(p) => {
             add(owner, format!("{} panicked: {p}", op_kind(op)));
-            return StepOut { mismatches: mm, label: mo.label, witnesses: mo.witnesses, obs: obs.ok(), expected, got_text, exp_text };
+            return StepOut { mismatches: mm, label: mo.label, witnesses: mo.witnesses, obs: obs.ok(), expected, got_text, exp_text, resynced: false };
         }
         Ok(g) => g,
     };
     let obs = match obs {
         Err(p) => {
             add(P20, format!("verif_view/bucket_stats/len panicked after {}: {p}", op_kind(op)));
-            return StepOut { mismatches: mm, label: mo.label, witnesses: mo.witnesses, obs: None, expected, got_text, exp_text };
+            return StepOut { mismatches: mm, label: mo.label, witnesses: mo.witnesses, obs: None, expected, got_text, exp_text, resynced: false };
         }
         Ok(o) => o,
     };
@@ -902,7 +912,13 @@ fn step(ctx: &Ctx, lim: (usize, usize, usize), node: &mut Node, opi: usize) -> S
     }
 
     // ---- C22 / C19: verification calls and window bookkeeping ----
+    let mut expected = expected;
+    if node.wdiv {
+        expected.wstart_ns = obs.wstart_ns;
+        expected.wcount = obs.wcount;
+    }
     let win_ok = obs.wstart_ns == expected.wstart_ns && obs.wcount == expected.wcount;
+    let mut window_only = false;
     let win_txt = format!(
         "window (start,count) expected ({},{}) observed ({},{}) [start in half-windows]",
         expected.wstart_ns as f64 / HALF.as_nanos() as f64,
@@ -929,6 +945,7 @@ fn step(ctx: &Ctx, lim: (usize, usize, usize), node: &mut Node, opi: usize) -> S
             }
         } else if !win_ok {
             add(P22, format!("after push: {win_txt}"));
+            window_only = true;
         }
     } else {
         if calls != 0 {
@@ -936,6 +953,7 @@ fn step(ctx: &Ctx, lim: (usize, usize, usize), node: &mut Node, opi: usize) -> S
         }
         if !win_ok {
             add(P22, format!("{} changed the verification window: {win_txt}", op_kind(op)));
+            window_only = calls == 0;
         }
     }
 
@@ -1041,7 +1059,12 @@ fn step(ctx: &Ctx, lim: (usize, usize, usize), node: &mut Node, opi: usize) -> S
     if mm.is_empty() && obs != expected {
         machinery_error("observation differs from the model in a component no check covers");
     }
-    StepOut { mismatches: mm, label: mo.label, witnesses: mo.witnesses, obs: Some(obs), expected, got_text, exp_text }
+    let mut resynced = false;
+    if mm.len() == 1 && window_only {
+        node.wdiv = true;
+        resynced = true;
+    }
+    StepOut { mismatches: mm, label: mo.label, witnesses: mo.witnesses, obs: Some(obs), expected, got_text, exp_text, resynced }
 }
 
 fn stat_txt(ctx: &Ctx, s: &[ObsStat]) -> Vec<String> {
@@ -1262,7 +1285,7 @@ fn run_history(ctx: &Ctx, si: usize, hist: &[u8]) -> Result<Node, (usize, StepOu
     let mut node = new_node(ctx, lim);
     for (i, &o) in hist.iter().enumerate() {
         let so = step(ctx, lim, &mut node, o as usize);
-        if !so.mismatches.is_empty() {
+        if !so.mismatches.is_empty() && !(so.resynced && i + 1 < hist.len()) {
             return Err((i, so));
         }
     }
@@ -1303,7 +1326,9 @@ fn expand(ctx: &Ctx, si: usize, f: FNode, visited: &HashSet<Box<[u8]>>, keep_nod
             for (p, s) in &so.mismatches {
                 out.found.push((opi as u8, *p, s.clone()));
             }
-            continue; // model and implementation have diverged: nothing below is meaningful
+            if !so.resynced {
+                continue; // model and implementation have diverged: nothing below is meaningful
+            }
         }
         let key = canon(&child.model, child.now);
         let unchanged = child.now == parent.now && so.obs.as_ref() == Some(&parent_obs);
@@ -1570,7 +1595,8 @@ fn main() {
 
     // the four settings advance level by level in turn under one wall-clock deadline
     let deadline = Instant::now() + total_budget;
-    let guaranteed_depth: usize = if depth_override.is_some() { usize::MAX } else if thorough { 6 } else { 4 };
+    // (the budget-64 setting has the widest levels: one level less is guaranteed there)
+    let guaranteed_depth: [usize; 4] = if depth_override.is_some() { [usize::MAX; 4] } else if thorough { [6, 6, 6, 6] } else { [5, 5, 5, 4] };
     let mut explorers: Vec<Explorer> = (0..SETTINGS.len()).map(|si| Explorer::new(&ctx, si, depths[si])).collect();
     for level in 0..*depths.iter().max().unwrap() {
         for si in 0..explorers.len() {
@@ -1579,7 +1605,7 @@ fn main() {
             }
             // the wall-clock cap never cuts the guaranteed depth (so that what the quick tier
             // covers does not depend on machine load); deeper levels run while time remains
-            let dl = if level < guaranteed_depth { Instant::now() + Duration::from_secs(86_400) } else { deadline };
+            let dl = if level < guaranteed_depth[si] { Instant::now() + Duration::from_secs(86_400) } else { deadline };
             if Instant::now() > dl {
                 explorers[si].res.capped = true;
                 continue;
